@@ -197,9 +197,44 @@ fn random_case(rng: &mut Rng, malformed: bool) {
     w.emit(if malformed { "malformed" } else { "random" });
 }
 
+
+/// corpus syntax: Sa/St start; Xa/Xt start and clear in the same update; C<i> clear; F<i> fire (right
+/// response), Fk<i> Cleared{id} as the answer, Fi<i> wrong id; R<i> drop request; N noop
+fn parse_case(line: &str, kinds: &mut Vec<Kind>) -> Vec<In> {
+    let mut v = vec![];
+    for tok in line.split_whitespace() {
+        let (head, idx): (String, String) = (tok.chars().take_while(|c| c.is_alphabetic()).collect(), tok.chars().skip_while(|c| c.is_alphabetic()).collect());
+        let i: usize = idx.parse().unwrap_or(0);
+        let k = kinds.get(i).copied().unwrap_or(Kind::After);
+        v.push(match head.as_str() {
+            "Sa" => { kinds.push(Kind::After); In::Start(Kind::After) }
+            "St" => { kinds.push(Kind::At); In::Start(Kind::At) }
+            "Xa" => { kinds.push(Kind::After); In::StartClear(Kind::After) }
+            "Xt" => { kinds.push(Kind::At); In::StartClear(Kind::At) }
+            "N" => In::Noop, "C" => In::Clear(i), "R" => In::DropReq(i),
+            "F" => In::Fire(i, right_start(k)), "Fk" => In::Fire(i, Resp { kind: 3, off: 0 }), "Fi" => In::Fire(i, Resp { kind: right_start(k).kind, off: 1 }),
+            other => panic!("corpus: unknown token {}", other),
+        });
+    }
+    v
+}
+fn run_corpus(file: &str) {
+    let dir = std::env::var("TIMER_CORPUS_DIR").unwrap_or_else(|_| "/verif/corpus/timer".into());
+    if let Ok(text) = std::fs::read_to_string(format!("{}/{}", dir, file)) {
+        for line in text.lines() {
+            let line = line.split('#').next().unwrap().trim();
+            if line.is_empty() { continue; }
+            let mut kinds = vec![];
+            let w = replay(&parse_case(line, &mut kinds));
+            w.emit("corpus");
+        }
+    }
+}
+
 fn main() {
     let a: Vec<u64> = std::env::args().skip(1).map(|s| s.parse().expect("numeric args")).collect();
     let (seed, l1, l2, nrand, nmal) = (a[0], a[1] as usize, a[2] as usize, a[3], a[4]);
+    run_corpus("legacy.txt");
     let mut count = 0u64;
     for k in [Kind::After, Kind::At] {
         exhaustive(&[In::Start(k)], l1, false, 1, "exh1", &mut count);
